@@ -17,6 +17,8 @@ Use kinds:
   escape    p is passed to a callee the scan cannot see into
   strconv   str(p) / repr(p) / '{}'.format(p) / '%s' % p / f'{p}' with a LITERAL template
             (not a host member access; recorded, never counted as host touching)
+  probe     p is passed to yaqlization.get_yaqlization_settings / is_yaqlized: the `__yaqlization__` settings
+            probe every object undergoes (recorded, not host touching - the property statement excludes it)
   reenter   p is handed back to yaql (a sibling Lambda/Delegate/Context parameter is called with it):
             it becomes `$`/an argument of another registered function and is type-checked again there
             (recorded, not host touching)
@@ -40,7 +42,7 @@ import types
 import common  # noqa
 import pyfacts
 
-USE_BITS = ['getattr', 'subscript', 'call', 'fmtarg', 'template', 'escape', 'strconv', 'reenter']
+USE_BITS = ['getattr', 'subscript', 'call', 'fmtarg', 'template', 'escape', 'strconv', 'reenter', 'probe']
 TOUCH = ('getattr', 'subscript', 'call', 'fmtarg', 'template', 'escape')
 
 # callables that never look up a *named* member on their arguments (they may run implicit
@@ -333,6 +335,10 @@ class Scan(ast.NodeVisitor):
     def follow(self, f, call, hit):
         target, label, owner = self.resolve(f)
         if target == 'safe':
+            return
+        if isinstance(target, types.FunctionType) and target.__module__ == 'yaql.yaqlization' \
+                and target.__name__ in ('get_yaqlization_settings', 'is_yaqlized'):
+            self.note('probe', label)
             return
         if target is None:
             if isinstance(f, ast.Attribute) and f.attr in SAFE_METHODS:
